@@ -613,6 +613,7 @@ func c09Pinger(c *hx.Ctx) []*scenario {
 func c09Scenarios(c *hx.Ctx) []*scenario {
 	var out []*scenario
 	out = append(out, c09Pinger(c)...)
+	out = append(out, c09CfgSweep(c)...) // no draw from c.Rng
 	out = append(out, c09Basic()...)
 	out = append(out, c09Regress(c)...)
 	out = append(out, c09GatedPairs(c)...)
@@ -902,6 +903,7 @@ func c10Scenarios(c *hx.Ctx) []*scenario {
 	var out []*scenario
 	out = append(out, c10Basic()...)
 	out = append(out, c10Enumerate(c)...)
+	out = append(out, c10CfgSweep(c)...)
 	return out
 }
 
